@@ -7,7 +7,7 @@ use crate::verif_common::*;
 
 const MAXB: usize = 3;
 
-kproof! {
+kproof_vp! {
     /// K02f: encode_mispredictions -> decode_mispredictions reproduces the bytes the real writer emits
     /// for the original blocks: block types, stored lengths/padding, TokenCount signalling under a
     /// symbolic max_token_count, empty blocks, EOF flags, final padding.  No dictionary (literal-only).
@@ -69,7 +69,7 @@ kproof! {
     }
 }
 
-kproof! {
+kproof_vp! {
     /// K03e: parse_deflate's compressed_size is the byte cursor after the last block's padding and the
     /// parse depends only on those bytes: two inputs that agree on the consumed prefix give the same result.
     fn k03e_consumed_prefix() {
